@@ -40,6 +40,10 @@ def make(case):
     span = spans.build(case['span'])
     n = len(span)
     m = cls(span, **{nm: np.array([1.0 + i for i in range(n)]) for nm in SC.NAMES[:nv] + ['X']})
+    scripted.arm(m, {})
+    if case.get('presolved') and n:
+        # state left over from an earlier, complete solve (statuses and iteration counts are set everywhere feasible)
+        attempt(m.solve, max_iter=2, tol=0.5, failures='ignore', errors='ignore')
     scripted.arm(m, case.get('script'))
     return m
 
@@ -200,8 +204,9 @@ def gen_pairs(max_len):
                 for s in cands:
                     for e in cands:
                         i += 1
-                        yield {'span': desc, 'start': s, 'end': e, 'lags': lags, 'leads': leads, 'nvars': 1,
-                               'script': script_for(n, [1, 0, 2][: 1 + i % 3]),
+                        yield {'span': desc, 'start': s, 'end': e, 'lags': lags, 'leads': leads, 'nvars': 1, 'presolved': i % 2 == 0,
+                               'script': script_for(n, [1, 0, 2][: 1 + i % 3],
+                                                    [i % max(n, 1), 1, ['raise', 'KeyError']] if i % 5 == 0 and n else None),
                                'opts': [{'max_iter': 3, 'failures': 'ignore', 'tol': 0.5},
                                         {'max_iter': 5, 'failures': 'ignore'},
                                         {'max_iter': 4, 'min_iter': 4, 'failures': 'ignore', 'tol': 0.5}][i % 3]}
@@ -240,6 +245,7 @@ def strategy():
         if draw(st.integers(0, 3)) == 0:
             del opts['min_iter']
         return {'span': desc, 'start': draw(lab), 'end': draw(lab), 'lags': lags, 'leads': leads, 'nvars': 1,
+                'presolved': draw(st.booleans()),
                 'script': script_for(n, draw(st.lists(st.integers(0, 2), min_size=1, max_size=3)), fault),
                 'opts': opts}
     return cases()
